@@ -3,7 +3,7 @@
    downsample::Config::{header, file_name_suffix}. Texts come from the generated HeaderText. *)
 From Coq Require Import List NArith Bool Arith.
 From Coq Require Import Strings.Byte.
-Require Import BS.Bytes BS.Common BS.FS.
+Require Import BS.Bytes BS.Common BS.Api BS.FS.
 Require BSgen.Consts BSgen.HeaderText.
 Import ListNotations.
 Close Scope N_scope. Open Scope nat_scope.
